@@ -129,7 +129,7 @@ def gen(ctx):
 
     # ---- tokenizer (i): complete set of strings x subsets (and complements) x operations x limits, each on a fresh tokenizer
     alpha = [0, 97, 128, 255] if ctx.thorough else [0, 97, 255]
-    maxlen = 5
+    maxlen = 5 if ctx.thorough else 4
     for s in strings(alpha, maxlen):
         limits = sorted({0, 1, 2, 3, len(s) - 1 if s else 0, len(s), len(s) + 1, 1 << 31, NPOS - 1, NPOS})
         for sub in subsets(alpha):
@@ -161,12 +161,12 @@ def gen(ctx):
     pairs = list(itertools.product(single, repeat=2))
     bufs = list(strings(palpha, 4))
     if not ctx.thorough:
-        pairs = rnd.sample(pairs, 350)
+        pairs = rnd.sample(pairs, 150)
     for s in bufs:
         for a, b in pairs:
             add('tok-pairs', tok_line(len(lines) & 1, s, [a, b]))
     # ---- tokenizer (iii): random sets over all 256 byte values, 0..300 byte inputs, sequences, limits incl. 0 and npos
-    for _ in range(12000 if ctx.thorough else 2500):
+    for _ in range(12000 if ctx.thorough else 2000):
         members = rand_set(rnd)
         s = rand_input(rnd, members)
         ops = []
@@ -301,19 +301,20 @@ def run(ctx):
     ctx.cov['ub_reports'] = sum(1 for c in cases if c.get('ub'))
     ctx.cov['driver_deaths'] = len(deaths)
     ctx.cov['exhaustive'] = False
-    for k in ('set-random', 'tok-exhaustive', 'tok-pairs', 'tok-random'):
-        for i in live:
-            if kinds[i] == k and (outs[i]['fn'] != 'tok' or len(outs[i]['ops']) <= 3 or k == 'tok-random'):
-                c = outs[i]
-                ctx.sample({'input_line': lines[i][:400], 'first_step': show(explode(c)[0]) if c['fn'] == 'tok' and c['ops'] else show(c)})
-                break
+    for k in ('set-exhaustive', 'ranges-random', 'tok-exhaustive', 'tok-pairs', 'tok-random'):
+        idx = [i for i in live if kinds[i] == k]
+        if idx:
+            i = idx[len(idx) // 2]
+            c = outs[i]
+            steps_txt = [show(x)[:300] for x in explode(c)] if c['fn'] == 'tok' else [show(c)[:300]]
+            ctx.sample({'kind': k, 'input_line': lines[i][:200], 'steps': steps_txt[len(steps_txt) // 2:len(steps_txt) // 2 + 2]})
     ctx.cov['rule'] = ('CharacterSet: all pairs of subsets of {0,65,128,255} through both constructors, all single ranges over {0,1,127,128,254,255}^2, '
                        'seeded random 256-bit sets/range lists; operator[] is read for all 256 values of every result. Tokenizer: the complete set of '
-                       'strings of length <= 5 over %d byte values x every subset and its complement x 7 set operations x a limit lattice '
+                       'strings of length <= %d over %d byte values x every subset and its complement x 7 set operations x a limit lattice '
                        '(0,1,2,3,len-1,len,len+1,2^31,npos-1,npos) on a reset tokenizer; all (buffer <= 4, needle <= 3) pairs for skip/skipSuffix/skip(char); '
                        'ordered operation pairs on one tokenizer over all strings <= 4 of 2 byte values; seeded random sets x 0..300 byte run-structured inputs x '
                        '1..5 operations. Input lines are de-duplicated; a case is non-trivial when it has a non-empty operand set (set cases) or at least one '
-                       'operation consumed bytes (tokenizer cases). evaluations counts single operations.' % len([0, 97, 128, 255] if ctx.thorough else [0, 97, 255]))
+                       'operation consumed bytes (tokenizer cases). evaluations counts single operations.' % ((5, 4) if ctx.thorough else (4, 3)))
     ctx.assumptions += ['the driver reads set contents through operator[] for all 256 values and tokenizer state through remaining()/parsedSize()',
                         'driver linked like tests/testTokenizer (real base/, sbuf/, parser/ sources from the working tree; stub_libmem/stub_debug/stub_StatHist as in that test), ASan+UBSan',
                         'limits above 2^30 other than npos are presented to TLC as 2^30 (buffers are at most 300 bytes)',
